@@ -50,6 +50,8 @@ type FuncContract struct {
 	Unroll     int
 	Callbacks  map[string]string // parameter name -> "pure"
 	Uses       []string          // lemmas available as hypotheses
+	Delegate   string            // "param.Method(out)": the call is one call of that method on a fresh byte slice
+	EnsuresOut []Clause          // facts about the delegated byte slice
 	Apply      []Clause          // lemma instances assumed at every return
 }
 
@@ -295,6 +297,14 @@ func parseClause(fc *FuncContract, word, rest, pos string) error {
 		fc.Apply = append(fc.Apply, cl)
 	case "uses":
 		fc.Uses = append(fc.Uses, strings.Fields(strings.ReplaceAll(rest, ",", " "))...)
+	case "delegate":
+		fc.Delegate = strings.TrimSpace(rest)
+	case "ensures-out":
+		cl, err := mk()
+		if err != nil {
+			return err
+		}
+		fc.EnsuresOut = append(fc.EnsuresOut, cl)
 	case "callback":
 		f := strings.Fields(rest)
 		if len(f) != 2 || f[1] != "pure" {
